@@ -152,6 +152,24 @@ Theorem listener_keeps_pins : forall sp remote f now,
 Proof. exact listener_keeps_pins_proof. Qed.
 Print Assumptions listener_keeps_pins.
 
+(* The pin condition of [verify_ok_iff] is about the digests of the peer's OWN certificate
+   (rawCerts[0]).  A verifier that looks for the pin among all presented certificates is the same
+   function while the peer presents one certificate ... *)
+Theorem C09_pin_any_certificate_same_when_alone : forall c f now,
+  verify_any c f [] now = verify c f now.
+Proof. exact verify_any_alone_proof. Qed.
+Print Assumptions C09_pin_any_certificate_same_when_alone.
+
+(* ... and accepts a peer whose certificate matches no pin once that peer appends a pinned
+   certificate to its certificate message (elements nothing authenticates) *)
+Theorem C09_pin_any_certificate_refuted :
+  let c := mkCfg VERIFY_SERVER HOST_RECEPTOR (str "node-a"%string) [repeat 6 32] in
+  verify c ex_facts ex_now = Refuse R_PINMISS /\
+  ~ pins_ok (c_pins c) ex_facts /\
+  verify_any c ex_facts [stranger_facts] ex_now = Accept.
+Proof. exact pin_any_certificate_refuted_proof. Qed.
+Print Assumptions C09_pin_any_certificate_refuted.
+
 (* non-vacuity: a certificate that is accepted, and the same certificate refused for one reason at
    a time, including the loop-order cases of the pin list (an illegal length is an error whether
    it comes before or after a matching pin) *)
